@@ -102,3 +102,23 @@ Proof.
   destruct Hf as (Hf1 & Hf2 & _). pose proof (size_le_bytes size).
   apply (spec_load_after_store _ _ v _ _ bytes bytes'); try assumption; lia.
 Qed.
+
+(* ---------- C03: footprint of an emitted setter ---------- *)
+
+(* An emitted setter of an accepted definition changes no byte of the set's array other than the bytes its
+   declared bit range covers (under the set's byte order) — store_footprint at the generated level. *)
+Theorem generated_setter_footprint ptrw fsf a v bytes :
+  In ptrw ptr_widths -> accessor_in_bounds fsf a -> a_end a - a_start a <= 128 ->
+  bytes_ok bytes -> Z.of_nat (List.length bytes) = fs_size_bytes fsf ->
+  exists bytes', setter_call ptrw a v bytes = Some (Ok bytes') /\ List.length bytes' = List.length bytes /\
+    forall idx, (idx < List.length bytes)%nat ->
+      (forall k, a_start a <= k < a_end a ->
+         phys_byte (to_byte_order (a_byte_order a)) (Z.of_nat (List.length bytes)) k <> Z.of_nat idx) ->
+      nth idx bytes' 0 = nth idx bytes 0.
+Proof.
+  intros Hp (H1 & H0 & H2 & H3 & H4) Hw Hb Hlen. destruct (H4 Hw) as [H5 H6].
+  destruct (cty_of_spec (a_signed a) (a_cbits a) H6) as (c & Hc & Hin & Hbits).
+  unfold setter_call. rewrite Hc.
+  pose proof (Hbits ptrw) as [Hbw _].
+  apply store_footprint. repeat split; try assumption; lia.
+Qed.
